@@ -530,12 +530,21 @@ func (x *yyLex) Lex(yylval *yySymType) (ret int) {
 
 			// Check if continuation character
 			if x.line[0] == '\\' && (len(x.line) <= 1 || x.line[1] == '\n') {
-				if x.eof {
-					x.state = checkEof
-					continue
+				if !x.eof {
+					x.refill()
+					if !x.eof || x.line != "" {
+						x.state = parseTokens
+						continue
+					}
 				}
-				x.refill()
-				x.state = parseTokens
+				// The input ends where the line should continue.
+				// In a file the parser rejects that as there is
+				// no NEWLINE, but an expression needs none.
+				if !x.exec {
+					x.SyntaxError("unexpected EOF while parsing")
+					return eof
+				}
+				x.state = checkEof
 				continue
 			}
 
